@@ -93,7 +93,8 @@ def correspondence(ctx):
         closed = rng.random() < 0.5
         segs = rand_chain(rng, closed)
         lines.append("model nodelist.to " + " ".join(oc.seg_tokens(s) for s in segs)); metas.append(("to", segs, closed))
-        lines.append("model svg %d %s" % (closed, " ".join(oc.seg_tokens(s) for s in segs))); metas.append(("svg", segs, closed))
+        flag = closed and rng.random() < 0.7       # an outline that returns to its start need not be flagged closed
+        lines.append("model svg %d %s" % (flag, " ".join(oc.seg_tokens(s) for s in segs))); metas.append(("svg", segs, flag))
         if closed:
             nl = nodes_of(segs)
             r = rng.randrange(len(nl))
@@ -266,8 +267,9 @@ def search(ctx, budget):
             inp = {"vals": [rand_double(rng) for _ in range(8)]}
             kind = "repr"
         else:
-            closed = rng.random() < 0.5
-            inp = {"segs": rand_chain(rng, closed, fam=rng.choice(["int", "float", "dyadic"])), "closed": closed}
+            geo = rng.random() < 0.6          # the outline returns to its start ...
+            closed = geo and rng.random() < 0.6   # ... which does not make it closed: the flag decides (open contours may end where they began)
+            inp = {"segs": rand_chain(rng, geo, fam=rng.choice(["int", "float", "dyadic"])), "closed": closed}
             kind = "svg"
         kinds[kind] = kinds.get(kind, 0) + 1
         if repr(inp) not in seen:
